@@ -46,7 +46,11 @@ CONFIG = {
              "1-3 tree lists of 1-3 trees + 0-2 matrices written by DendroPy's NeXML writer from generated data; (numeric) "
              "Newick with INTEGER leaf labels (1..n or sparse, in drawn order; labels, never positions, in Newick) read "
              "into namespaces that are empty or already hold other names / scrambled integers (one shared, or an "
-             "equally pre-populated one per call).  x "
+             "equally pre-populated one per call); (multi) 2-3 different sources of one schema in one call - hand-written "
+             "NeXML files over one label set that reuse the otus / otu ids (tax1, t1..tn) with a permuted id -> label "
+             "assignment, Newick and TAXA-less NEXUS documents - or the same source listed twice, as unnamed streams / "
+             "open files / paths / one path twice, with tree_offset 0-2 and all TreeArray configurations, through "
+             "Tree.yield_from_files, TreeArray.read_from_files, TreeArray.read x n, TreeList.read x n.  x "
              "reader options accepted by every route of the schema (rooting, preserve_underscores, store_tree_weights, "
              "extract_comment_metadata, suppress_internal_node_taxa, suppress_leaf_node_taxa, "
              "case_sensitive_taxon_labels, suppress_edge_lengths, is_assign_internal_labels_to_edges; NeXML: "
@@ -77,6 +81,12 @@ CONFIG = {
         "while the library under test still tokenizes \"[c]'a b'\" as the unquoted token \"'a\" (C20's finding, probed "
         "once per process), documents with a comment directly in front of a quoted token are skipped (class "
         "skipped:comment_glued_to_quoted_token(C20)); with C20's repair merged nothing is skipped",
+        "(multi) several sources in one call are compared with reading the same sources one after the other; for NEXUS "
+        "the sources have no TAXA blocks: on the unchanged library the single reader object of the NEXUS iterator keeps "
+        "the NTAX of an earlier file's TAXA block and refuses the new taxa of a later file without one "
+        "(UndefinedTaxonError) although TreeList.read x n reads them - reported to the coordinator, not asserted",
+        "two reads of one text within one process (fresh namespace, a few hundred unrelated Annotation objects allocated "
+        "and released in another order in between) must give identical, order-sensitive observations",
         "matrix rows are compared by taxon label (iteration order follows the namespace, which the data set route may "
         "have filled from an earlier TREES block)",
         "a document + options combination that TreeList.get(data=) refuses is outside the domain; DataSet.get and the "
